@@ -61,6 +61,9 @@ pub struct Server {
     /// fault for every request beyond the script (a server that never recovers)
     pub default_fault: Option<NetFault>,
     pub log: Vec<LoggedRequest>,
+    /// a request without this header (name, value) is answered with 401 and an error page: a
+    /// server that wants the --http-header credentials on every request, retries included
+    pub require_header: Option<(String, String)>,
 }
 
 pub type SharedServer = Arc<Mutex<Server>>;
@@ -93,7 +96,7 @@ fn fragment(body: &[u8], frag: BodyFrag, max_delay_ns: u64, tape: &mut Tape) -> 
 
 impl Server {
     pub fn new(content: Arc<Vec<u8>>) -> Self {
-        Server { content, frag: BodyFrag::One, max_delay_ns: 0, script: Vec::new(), default_fault: None, log: Vec::new() }
+        Server { content, frag: BodyFrag::One, max_delay_ns: 0, script: Vec::new(), default_fault: None, log: Vec::new(), require_header: None }
     }
 
     fn handle(&mut self, req: &ReqInfo, tape: &mut Tape) -> ResponsePlan {
@@ -121,6 +124,17 @@ impl Server {
                 self.content.to_vec()
             }
         };
+        if let Some((name, value)) = &self.require_header {
+            let ok = req.headers.iter().any(|(k, v)| k.eq_ignore_ascii_case(name) && v == value);
+            if !ok {
+                simkit::try_with(|s| s.count("http-401-required-header-missing"));
+                status = 401;
+                let page = b"401 Unauthorized\n";
+                for (i, b) in body.iter_mut().enumerate() {
+                    *b = page[i % page.len()];
+                }
+            }
+        }
         let mut end = BodyEnd::Eof;
         let mut tail: Option<(usize, u64)> = None;
         let mut lie: Option<u64> = None;
